@@ -37,6 +37,7 @@ Layouts (added, differential): on every ladder polygon (identity and translate-f
 import itertools
 from fractions import Fraction
 import numpy as np
+from mc.explore import recycle
 
 ID = "C15"
 # computational entry points whose results are watched by the engine's retained-result oracle (mc/explore.py)
@@ -202,7 +203,9 @@ def check_pip(ctx, gutils, vxy, closed, tr, PX, PY, P, exp, onedge, inbox, level
     base_fail: set of failure classes already seen for the base call (open form, identity transform) of this
     vertex list; a class that fails there keeps its short key, a class that fails ONLY in another form /
     under a transform gets the form / transform appended (a different defect)."""
-    poly = float_poly(vxy, closed, tr)
+    # polygon and points are handed over in array objects that are refilled for every call of the same shape
+    poly = recycle("poly", float_poly(vxy, closed, tr))
+    P = recycle("points", P)
     case = {"kind": "pip", "K": int((int(PX.max()) - 2) // 4), "verts": [list(v) for v in vxy], "closed": closed,
             "transform": list(tr), "prealloc": prealloc}
     if case_base is not None:       # size ladder: the case names the generator (family, n, variant), not the vertex list
